@@ -23,7 +23,7 @@ TNS = 'urn:c09'
 
 
 # ------------------------------------------------------------------ abstract schemas
-def gen_schema(rng):
+def gen_schema(rng, v11=False):
     """list of declarations {'kind','name','xml','deps'}; index order is a valid (dependency-respecting) order"""
     decls = []
     st, at, ag, gr, ct, el = [], [], [], [], [], []
@@ -98,7 +98,14 @@ def gen_schema(rng):
             '</xs:element></xs:sequence></xs:complexType>' % (ity, ity), [ity])
         add('element', 'reg', '<xs:element name="reg" type="t:RegT"><xs:key name="itemKey"><xs:selector xpath="t:item"/>'
             '<xs:field xpath="@id"/></xs:key></xs:element>', ['RegT'])
-    return {'decls': decls, 'root': el[-1][0], 'ident': ident}
+    wild = None
+    if v11:
+        # XSD 1.1: a wildcard that excludes the globally declared elements, wherever their declarations are stored
+        add('type', 'WT', '<xs:complexType name="WT"><xs:sequence><xs:any notQName="##defined" processContents="lax" '
+            'minOccurs="0" maxOccurs="unbounded"/></xs:sequence></xs:complexType>', [])
+        add('element', 'w', '<xs:element name="w" type="t:WT"/>', ['WT'])
+        wild = [e[0] for e in el if e[1].startswith('S')][:2]
+    return {'decls': decls, 'root': el[-1][0], 'ident': ident, 'wild': wild}
 
 
 def ident_docs():
@@ -723,10 +730,13 @@ def gen(ctx):
     for i in range(30 if ctx.quick() else 500):
         seed = rng.randrange(10 ** 9)
         r = random.Random(seed)
-        schema = gen_schema(r)
+        schema = gen_schema(r, v11=bool(i % 2))
         docs = [gen_instance(schema, r) for _ in range(2)] + [gen_instance(schema, r, invalid=True) for _ in range(2)]
         if schema['ident']:
             docs += ident_docs()
+        if schema['wild']:
+            docs += ['<t:w xmlns:t="%s"><t:%s>1</t:%s><t:undeclared/></t:w>' % (TNS, n, n) for n in schema['wild']]
+            docs.append('<t:w xmlns:t="%s"><t:undeclared/></t:w>' % TNS)
         cases.append({'seed': seed, 'schema': schema, 'docs': docs, 'version': '1.1' if i % 2 else '1.0'})
     return cases
 
